@@ -1458,10 +1458,12 @@ class TLSRecordLayer(object):
         self._defragmenter.clear_buffers()
         self.allegedSrpUsername = None
         self._refCount = 1
+        self._recordLayer.handshake_finished = False
 
     def _handshakeDone(self, resumed):
         self.resumed = resumed
         self.closed = False
+        self._recordLayer.handshake_finished = True
 
     def _calcPendingStates(self, cipherSuite, masterSecret,
                            clientRandom, serverRandom, implementations):
